@@ -37,10 +37,15 @@ Definition model_multi (sn sl : bool) (shots : list (list entry)) : res (list (t
 Definition tuple_eqb := list_eqb ts_eqb.
 Definition model_collate (shots : list (list entry)) : res (list (list (tag * str))) :=
   mapM (fun es => bind (collated_shot es) (fun l => Ok (map (fun '(t, bs) => (t, render bs)) l))) shots.
+(* the Counter's keys are tuples of (tag, string) pairs in the order the tags first occur in the shot: two shots
+   with the same pairs in another order give two keys.  The property speaks of the per-tag strings, not of the
+   order of the pairs inside a key, so keys are compared up to that order and the counts of keys that are
+   permutations of each other are added up (thorough tier, seed 0: shots [a[0],zz9] and [zz9,a[0]]) *)
+Definition merged (obs : list (list (tag * str) * nat)) (tp : list (tag * str)) : nat :=
+  fold_right (fun tn acc => if perm_eqb ts_eqb (fst tn) tp then snd tn + acc else acc) 0 obs.
 Definition collate_ok (obs : list (list (tag * str) * nat)) (tuples : list (list (tag * str))) : bool :=
-  forallb (fun '(tp, n) => Nat.eqb (count (perm_eqb ts_eqb) tp tuples) n && negb (Nat.eqb n 0)) obs &&
-  Nat.eqb (fold_right (fun tn acc => snd tn + acc) 0 obs) (length tuples) &&
-  nodupb (perm_eqb ts_eqb) (map fst obs).
+  forallb (fun '(tp, n) => Nat.eqb (count (perm_eqb ts_eqb) tp tuples) (merged obs tp) && negb (Nat.eqb n 0)) obs &&
+  Nat.eqb (fold_right (fun tn acc => snd tn + acc) 0 obs) (length tuples).
 
 Definition corr (c : case) : bool :=
   match c with
@@ -102,7 +107,7 @@ Definition mon (c : case) : bool :=
       match obs, mapM spec_collate_shot shots with
       | Ok o, Ok tuples =>
           (* tuples compared up to the order of their (tag, string) pairs *)
-          forallb (fun '(tp, n) => Nat.eqb (count (perm_eqb ts_eqb) tp tuples) n) o &&
+          forallb (fun '(tp, n) => Nat.eqb (count (perm_eqb ts_eqb) tp tuples) (merged o tp)) o &&
           Nat.eqb (fold_right (fun tn acc => snd tn + acc) 0 o) (length tuples)
       | ValueError, ValueError => true
       | _, _ => false
